@@ -1348,7 +1348,8 @@ Proof.
   - cbn. repeat (constructor; [cbn; intuition discriminate|]). constructor.
   - intros c [<-|[<-|[<-|[]]]]; unfold wf_command; cbn; (split; [repeat (constructor; [cbn; intuition discriminate|]); constructor|]);
       (split; [discriminate|]); intros [H|H]; discriminate H.
-  - intros c1 c2 o [<-|[<-|[<-|[]]]] [<-|[<-|[<-|[]]]] O1 O2; try reflexivity; cbn in O1, O2; exfalso; intuition congruence.
+  - intros c1 c2 o [<-|[<-|[<-|[]]]] [<-|[<-|[<-|[]]]] O1 O2; try reflexivity; cbn in O1, O2;
+    cbv [ex_mid ex_out ex_out2 ex_all ex_src ex_src2] in O1, O2; exfalso; intuition congruence.
   - intros c o [<-|[<-|[<-|[]]]] O; cbn in O; intuition (subst; reflexivity).
 Qed.
 
